@@ -345,7 +345,18 @@ class _SocketProxy:
         return getattr(_socket, name)
 
 
+# Host names that resolve, slowly: name -> (seconds the resolver takes, address). To the loop a resolver that runs in an
+# executor thread is an await that ends after that long; literal addresses are untouched. Empty by default; a check
+# that wants slow names fills it in (and owns the names it puts there).
+SLOW_NAMES = {}
+
+
 async def _sim_getaddrinfo(loop, log, host, port):
+    slow = SLOW_NAMES.get(host)
+    if slow is not None:
+        await asyncio.sleep(slow[0])
+        yield (norm_ip(slow[1]), port, 0, 0)
+        return
     try:
         ip = norm_ip(host)
     except ValueError:
